@@ -128,6 +128,35 @@ Theorem C20_clean_dryrun_frame : forall pat (fnmatch : name -> pat -> bool) tb o
 Proof. exact T_clean_dryrun_frame. Qed.
 Print Assumptions C20_clean_dryrun_frame.
 
+(* targets that are DIRECTORIES (task.py 621-638: os.rmdir of a target that is an empty directory, "cannot
+   remove" for one that holds something).  The file system of Model/Clean.v lists directories and files, so
+   C20_clean_dryrun_frame above already says that no directory disappears on a dry-run; per target: whatever
+   the target is at that moment -- regular file, empty directory, directory that holds something, nothing --
+   the dry-run prints exactly what the real clean prints for it from the same state and every file, every
+   directory and every DB record stay as they are *)
+Theorem C20_clean_dryrun_target_frame : forall (t : name) (w : Clean.world) (p : Clean.path),
+  Clean.w_fs (Clean.clean_target t true w p) = Clean.w_fs w /\
+  Clean.w_db (Clean.clean_target t true w p) = Clean.w_db w /\
+  Clean.w_ev (Clean.clean_target t true w p) = Clean.w_ev (Clean.clean_target t false w p).
+Proof. exact T_clean_dryrun_target_frame. Qed.
+Print Assumptions C20_clean_dryrun_target_frame.
+
+(* all the targets of a task with `clean: True` *)
+Theorem C20_clean_dryrun_targets_frame : forall (t : Clean.task) (w : Clean.world),
+  Clean.w_fs (Clean.clean_targets t true w) = Clean.w_fs w /\
+  Clean.w_db (Clean.clean_targets t true w) = Clean.w_db w.
+Proof. exact T_clean_dryrun_targets_frame. Qed.
+Print Assumptions C20_clean_dryrun_targets_frame.
+
+(* a target that is an empty directory: the dry-run adds the message "removing dir" and nothing else; the
+   real clean removes the directory (the state the seeded change C20g reached on the dry-run) *)
+Theorem C20_clean_empty_dir_target : forall (t : name) (w : Clean.world) (p : Clean.path),
+  Clean.fs_get (Clean.w_fs w) p = Some Clean.KDir -> Clean.fs_nonempty (Clean.w_fs w) p = false ->
+  Clean.clean_target t true w p = Clean.emit w (Clean.EMsgDir t p) /\
+  Clean.w_fs (Clean.clean_target t false w p) = Clean.fs_remove (Clean.w_fs w) p.
+Proof. exact T_clean_empty_dir_target. Qed.
+Print Assumptions C20_clean_empty_dir_target.
+
 (* ---- clean over clean LISTS (Model/Introspect.v, last part): a task's `clean` is a list mixing
    clean_targets, python callables with / without a `dryrun` parameter and shell commands, in any
    order; actions written by the user carry what they do to files when really executed. ---- *)
@@ -668,6 +697,38 @@ Proof.
   eexists. eexists. split; [vm_compute; reflexivity|]. split; [simpl; auto|].
   simpl. intros [H|[H|[H|[H|H]]]]; try discriminate; auto.
 Qed.
+
+(* directories as targets (the history of the demo of C20g): task 1 has `clean: True` and the targets
+   [1] (a directory, EMPTY since the file [1;2] -- a target too -- was deleted after the run) and [1;2];
+   task 2 has the nested directories [3] and [3;4], both targets, [3;4] empty; task 3 the directory [5]
+   that holds a foreign file.  `clean -n -a --forget`: "removing dir [1]", "removing dir [3;4]", "cannot
+   remove [3]" (it still holds [3;4]: nothing was removed), "cannot remove [5]"; tree and DB as before.
+   The same command without -n removes [1], [3;4] and then [3], keeps [5], forgets the three tasks. *)
+Definition dir_tab : Clean.table :=
+  [{| Clean.t_name := 1%N; Clean.t_task_dep := []; Clean.t_setup := []; Clean.t_subtask_of := None; Clean.t_clean := None;
+      Clean.t_targets := [[1; 2]; [1]]%N |};
+   {| Clean.t_name := 2%N; Clean.t_task_dep := []; Clean.t_setup := []; Clean.t_subtask_of := None; Clean.t_clean := None;
+      Clean.t_targets := [[3]; [3; 4]]%N |};
+   {| Clean.t_name := 3%N; Clean.t_task_dep := []; Clean.t_setup := []; Clean.t_subtask_of := None; Clean.t_clean := None;
+      Clean.t_targets := [[5]]%N |}].
+Definition dir_fs : Clean.fsys :=
+  [([1]%N, Clean.KDir); ([3]%N, Clean.KDir); ([3; 4]%N, Clean.KDir); ([5]%N, Clean.KDir); ([5; 6]%N, Clean.KFile)].
+Definition dir_opts (dry : bool) : Clean.opts unit :=
+  {| Clean.o_dryrun := dry; Clean.o_cleandep := false; Clean.o_cleanall := true; Clean.o_forget := true;
+     Clean.o_pos := []; Clean.o_sel := None |}.
+Definition dir_w0 : Clean.world := {| Clean.w_fs := dir_fs; Clean.w_db := [1; 2; 3]%N; Clean.w_ev := [] |}.
+Example C20_clean_dryrun_dirs_nonvacuous :
+  (exists w', Clean.clean_execute unit (fun _ _ => false) dir_tab (dir_opts true) dir_w0 = Clean.Ok ([1; 2; 3]%N, w') /\
+     Clean.w_fs w' = dir_fs /\ Clean.w_db w' = [1; 2; 3]%N /\
+     Clean.w_ev w' = [Clean.EClean 1%N; Clean.EMsgDir 1%N [1]%N;
+                      Clean.EClean 2%N; Clean.EMsgDir 2%N [3; 4]%N; Clean.EMsgNotEmpty 2%N [3]%N;
+                      Clean.EClean 3%N; Clean.EMsgNotEmpty 3%N [5]%N]) /\
+  (exists w', Clean.clean_execute unit (fun _ _ => false) dir_tab (dir_opts false) dir_w0 = Clean.Ok ([1; 2; 3]%N, w') /\
+     Clean.w_fs w' = [([5]%N, Clean.KDir); ([5; 6]%N, Clean.KFile)] /\ Clean.w_db w' = [] /\
+     Clean.w_ev w' = [Clean.EClean 1%N; Clean.EMsgDir 1%N [1]%N;
+                      Clean.EClean 2%N; Clean.EMsgDir 2%N [3; 4]%N; Clean.EMsgDir 2%N [3]%N;
+                      Clean.EClean 3%N; Clean.EMsgNotEmpty 3%N [5]%N]).
+Proof. split; eexists; (split; [vm_compute; reflexivity|]); repeat split. Qed.
 
 (* clean lists: task 1 (targets 5, 6; depends on task 2) has the documented idiom
    [clean_targets; shell `rm 10`; python callable removing 11 (no dryrun parameter); python callable with
